@@ -60,8 +60,16 @@ fn account(rt: &Rt, kind: u8) {
     rt.ilv.set(mix(rt.ilv.get(), ((t as u64) << 8) | kind as u64));
 }
 
+#[inline(never)]
+fn trace_op(rt: &Rt, what: &str, addr: usize, old: u64, new: u64) {
+    eprintln!("  [step {:>5}] t{} {:<28} @{:06x} {:#x} -> {:#x}", rt.steps.get(), rt.cur.get(), what, addr & 0xffffff, old, new);
+}
+
 #[inline]
 fn changed(rt: &Rt, addr: usize, old: u64, new: u64) {
+    if rt.trace.get() {
+        trace_op(rt, "write/rmw", addr, old, new);
+    }
     if old != new {
         rt.fp.set(rt.fp.get() ^ mix(addr as u64, old) ^ mix(addr as u64, new));
         rt.idle_ops[rt.cur.get()].set(0);
@@ -100,8 +108,16 @@ impl AtomicUsize {
     }
     #[inline]
     pub fn load(&self, _o: Ordering) -> usize {
-        pre(self.addr(), K_LOAD, "atomic load");
-        self.0.load(Ordering::SeqCst)
+        let a = pre(self.addr(), K_LOAD, "atomic load");
+        let v = self.0.load(Ordering::SeqCst);
+        if a {
+            with(|rt| {
+                if rt.trace.get() {
+                    trace_op(rt, "load", self.addr(), v as u64, v as u64)
+                }
+            });
+        }
+        v
     }
     /// Unobserved read for the harness (no scheduling point).
     #[inline]
